@@ -17,7 +17,7 @@ from pyvc.state import Obligation  # noqa: E402
 
 # one consistent set of contracts for every property (order matters: later sidecars refine earlier ones)
 ALL_SIDECARS = ("severity", "results", "externals", "interp", "interp_run", "pickled_inv", "pickled_api", "analysis", "analyses", "loader",
-                "hooks", "ml", "anchoring", "parse")
+                "hooks", "ml", "anchoring", "parse", "encoders")
 
 EXIT_OK, EXIT_VIOLATION, EXIT_UNDECIDED, EXIT_ERROR = 0, 1, 2, 3
 
@@ -48,14 +48,25 @@ class Run:
         self.assumptions = list(PYTHON_ASSUMPTIONS)
         self.samples = []
         self.replayers = []        # callables(ob) -> dict or None
+        self.unsupported = []      # (function, reason) whose obligations could not be generated
         self.notes = {}
 
     # ---- building ---------------------------------------------------------------------------------------------------
     def verify(self, *quals, extra_post=None):
+        from pyvc.eval import Unsupported
+        last = None
         for q in quals:
-            r = self.eng.verify(q, extra_post=extra_post)
+            try:
+                r = self.eng.verify(q, extra_post=extra_post)
+            except Unsupported as e:
+                # the function (as it now stands) uses a construct outside the verified subset: its obligations cannot be generated.
+                # Recorded; the property's bounded replay decides whether this run reports a violation, otherwise it is a checker error
+                self.unsupported.append((q, str(e)))
+                self.eng.obligations = []
+                continue
             self.fn_results.append(r)
-        return self.fn_results[-1] if quals else None
+            last = r
+        return last
 
     def lemma(self, name, hyps, goal, meta=None):
         ob = Obligation(f"lemma:{name}", "lemma", hyps, goal, where="lemma", meta=meta or {})
@@ -96,6 +107,11 @@ class Run:
                         print("   G:", str(o.goal)[:600])
                     if os.environ.get("VERIF_DEBUG") == "3":
                         explain(o, self.eng.rules)
+                    if os.environ.get("VERIF_DUMP_DIR"):
+                        from pyvc.solve import to_smt2
+                        fn = os.path.join(os.environ["VERIF_DUMP_DIR"], re.sub(r"[^A-Za-z0-9_.#-]", "_", o.name) + ".smt2")
+                        with open(fn, "w") as f:
+                            f.write(to_smt2(list(o.hyps) + list(getattr(self.eng, "background", None) or []), o.goal, self.eng.rules))
                     print("   model:", (o.result["model"] or "")[:int(os.environ.get("VERIF_DEBUG_N", "1200"))].replace("\n", "\n      "))
         refuted = [o for o in obs if o.result["verdict"] == "sat"]
         undecided = [o for o in obs if o.result["verdict"] not in ("sat", "unsat")]
@@ -113,9 +129,12 @@ class Run:
             if key not in seen_known:
                 seen_known.add(key)
                 print(f"KNOWN-FINDING: property={self.pid} {k['what']}")
+        printed = {k["what"] for _, k in known_hits}
         for bp in self.bounded_parts:
             for kf in bp.get("known_findings", []):
-                print(f"KNOWN-FINDING: property={self.pid} {kf}")
+                if kf not in printed:
+                    printed.add(kf)
+                    print(f"KNOWN-FINDING: property={self.pid} {kf}")
         replay_paths = []
         weak = []
         for o in list(violations):
@@ -135,6 +154,16 @@ class Run:
                 rp = self.write_bounded_replay(bp, v)
                 replay_paths.append(rp)
                 violations.append(v)
+        unsupported_unresolved = []
+        for q, why in self.unsupported:
+            ob = Obligation(f"{q}:unsupported", "exc", [], z3.BoolVal(False), where=q, meta={"clause": f"outside the verified subset: {why}"})
+            ob.result = {"verdict": "unknown", "time": 0.0, "model": why, "backend": "none"}
+            rp, reproduced = self.write_replay(ob, quiet=True)
+            if reproduced:
+                violations.append(ob)
+                replay_paths.append(rp)
+            else:
+                unsupported_unresolved.append((q, why))
         for i in self.informational:
             print(f"INFO: property={self.pid} {i}")
         self.write_evidence(obs, refuted, undecided, violations, known_hits, covers)
@@ -144,6 +173,10 @@ class Run:
               f"undecided {len(undecided)}; {time.time() - self.t0:.1f}s (generate {self.t_build:.1f}s, solve {self.t_solve:.1f}s)")
         if violations:
             return EXIT_VIOLATION
+        if unsupported_unresolved:
+            for q, why in unsupported_unresolved:
+                print(f"CHECKER-ERROR: {self.pid}: {q}: {why}")
+            return EXIT_ERROR
         if undecided:
             for o in undecided[:10]:
                 print(f"UNDECIDED: {o.name} ({o.result['verdict']}; {o.result['backend']}; {o.result['time']:.1f}s)")
@@ -220,6 +253,8 @@ class Run:
                 "functions_under_contract": fuc,
                 "obligation_kinds": kinds,
                 "by_backend": by_backend,
+                "slowest": [{"obligation": o.name, "s": round(o.result.get("time", 0.0), 2), "backend": o.result.get("backend")}
+                            for o in sorted(obs, key=lambda o: -o.result.get("time", 0.0))[:5]],
                 "covers": {"count": len(covers), "all_satisfiable": all(ok for _, ok in covers)},
                 "external_calls_modelled": used_ext,
                 "source_sha256": self.repo.sha,
